@@ -148,7 +148,7 @@ func gen(c *hx.Ctx) {
 				}
 			}
 		}
-		for i := 0; i < c.Budget(150, 3000); i++ {
+		for i := 0; i < c.Budget(300, 3000); i++ {
 			var ps []park
 			for j := 0; j < 1+c.Rng.Intn(3); j++ {
 				ps = append(ps, park{1 + c.Rng.Intn(3), 1 + c.Rng.Intn(3), int64(500 + c.Rng.Intn(4000))})
@@ -168,7 +168,7 @@ func gen(c *hx.Ctx) {
 		}
 	}
 	// 4. random multi-task scenarios
-	for i := 0; i < c.Budget(700, 12000); i++ {
+	for i := 0; i < c.Budget(1600, 12000); i++ {
 		n := 1 + c.Rng.Intn(4)
 		nt := 2 + c.Rng.Intn(c.Budget(7, 9))
 		ng := 1 + c.Rng.Intn(3)
@@ -198,7 +198,7 @@ func gen(c *hx.Ctx) {
 		}
 	}
 	// 5. inner workers clogged by handlers that ignore cancellation (the C08 known finding lives here)
-	for i := 0; i < c.Budget(40, 600); i++ {
+	for i := 0; i < c.Budget(80, 600); i++ {
 		n := 1 + c.Rng.Intn(2)
 		T := int64(1000)
 		var tasks []gtask
@@ -225,7 +225,7 @@ func gen(c *hx.Ctx) {
 		{0, 1000, 1000000000, 3, false, true, []beh{{2000000000, true, 6, 0}, {2000000000, true, 6, 0}, {2000000000, true, 6, 0}}}})
 	c.Count("clog_documented")
 	// 6. ties: several tasks whose handlers end exactly at their deadlines / at each other's events
-	for i := 0; i < c.Budget(120, 2500); i++ {
+	for i := 0; i < c.Budget(250, 2500); i++ {
 		n := 1 + c.Rng.Intn(3)
 		T := int64(1000)
 		var tasks []gtask
